@@ -20,7 +20,7 @@ func init() {
 	core.Register(&core.Property{
 		ID:         "C16",
 		Exhaustive: true,
-		Rule:       "exhaustive: (names of the base and experimental tables ∪ N1/R4 specification list) x argument counts 0..4 x {default, WithExperimentalFuncs}; Compile acceptance must equal (name in table ∧ count within the table's bounds); accepted calls never fail with ErrWrongArity; every implemented specification function is accepted with each count the specification allows and its specification examples evaluate to true; unimplemented ones yield an error. distinct_nontrivial = distinct (name, count, configuration) triples plus distinct fingerprint programs",
+		Rule:       "exhaustive: (names of the base and experimental tables ∪ N1/R4 specification list) x argument counts 0..4 x {default, WithExperimentalFuncs}; Compile acceptance must equal (name in table ∧ count within the table's bounds); accepted calls never fail with ErrWrongArity, on the specification receiver and on receivers of every System / FHIR kind; every implemented specification function is accepted with each count the specification allows and its specification examples evaluate to true; unimplemented ones yield an error. distinct_nontrivial = distinct (name, count, configuration) triples plus distinct fingerprint programs",
 		Assumptions: []string{"the list of implemented functions is pinned to the specification functions implemented at the time of writing (DESIGN 5.16); removing one is reported",
 			"fingerprints are specification examples; they do not depend on Go function names"},
 		Run:    runC16,
@@ -94,6 +94,30 @@ func c16Call(env *core.Env, name string, n int, experimental bool, inTable bool,
 	}
 	if r.IsError() && errors.Is(r.Err, impl.ErrWrongArity) {
 		env.Violatef(fmt.Sprintf("C16/arity-error-after-accept/%s/%d", name, n), "`%s` [%s] was accepted by Compile but evaluation fails with an arity complaint: %v", src, cfg, r.Err)
+	}
+	// the same accepted call on receivers of every kind: an implementation that forwards its arguments to a
+	// stricter sibling for some input types complains about arity only there
+	if sp := specByName(name); !experimental || (sp != nil && sp.Exp) {
+		recv := "%multi"
+		if sp != nil {
+			recv = sp.Recv
+		}
+		if recv != "" && !strings.Contains(src, "$") {
+			call := strings.TrimPrefix(src, recv+".")
+			for _, rc := range []string{"5", "1.5", "true", "'abc'", "'5 mg'", "(5 'mg')", "@2020-01-01", "@2020-01-01T10:00:00Z", "@T10:30", "%fint", "%fdec", "%fbool", "%fstr", "%fqty", "%fdate", "%name", "{}"} {
+				if rc == recv {
+					continue
+				}
+				rr := fx.Eval(env, rc+"."+call, in, co, eo)
+				env.Cover("accepted-other-receiver")
+				if rr.IsPanic() {
+					env.Violatef(fx.PanicSig("C16", rr), "`%s.%s` => %s", rc, call, rr.Short())
+				} else if rr.Kind == "error" && errors.Is(rr.Err, impl.ErrWrongArity) {
+					env.Violatef(fmt.Sprintf("C16/arity-error-after-accept/%s/%d", name, n), "`%s.%s` [%s] was accepted by Compile but evaluation fails with an arity complaint: %v", rc, call, cfg, rr.Err)
+					break
+				}
+			}
+		}
 	}
 	env.SampleSpread(src+cfg, map[string]string{"call": src, "config": cfg, "outcome": trunc(r.Short(), 120)})
 }
